@@ -1500,6 +1500,7 @@ func (vc *VC) siteHooks(st *State, key string, instr ssa.Instruction, before boo
 		if a.Before != before || !match(a.Callee, a.Ordinal) {
 			continue
 		}
+		vc.hookFired["a:"+a.Callee+"#"+fmt.Sprint(a.Ordinal)+":"+a.Clause.Label] = true
 		env := vc.fnEnvNames(st)
 		g := vc.trClause(env, a.Clause)
 		if !a.Clause.Free {
@@ -1513,6 +1514,7 @@ func (vc *VC) siteHooks(st *State, key string, instr ssa.Instruction, before boo
 		if g.Callee == "@return" || g.Before != before || !match(g.Callee, g.Ordinal) {
 			continue
 		}
+		vc.hookFired["g:"+g.Src] = true
 		env := vc.fnEnvNames(st)
 		vc.ghostAssign(st, env, g.Target, g.Value)
 	}
